@@ -24,7 +24,7 @@ import oracle
 from ser import Ids, Ser, Unsupported, Deser, parse_sexp, rat, bits_to_float
 
 LEAN_MODULE = "Optyx.Props.C03"
-EXTRA_MODULES = ["Optyx.Props.PinsC03", "Optyx.Props.BuildTie"]   # transcription anchors (harness/source_pins.py)
+EXTRA_MODULES = ["Optyx.Props.PinsC03", "Optyx.Props.BuildTie", "Optyx.Props.ClosurePathTie"]   # transcription anchors (harness/source_pins.py)
 THEOREMS = [
     "Optyx.Props.Closures.closureTables_agree",
     "Optyx.Props.Closures.sanitizeShape_agrees",
@@ -39,6 +39,10 @@ THEOREMS = [
     "Optyx.Props.C03.compileGradient_true_partial",
     "Optyx.Props.BuildTie.compile_step",
     "Optyx.Props.BuildTie.compileVec_step",
+    "Optyx.Props.ClosurePathTie.powerGradient_path",
+    "Optyx.Props.ClosurePathTie.unaryGradient_path",
+    "Optyx.Props.ClosurePathTie.compileGradient_path",
+    "Optyx.Props.ClosurePathTie.compileHessian_path",
     "Optyx.Props.PinsC03.anchors",
     "Optyx.Props.C03.jacRow_sound_of_source_equations",
     "Optyx.Props.JacRowTie.jacRow_step",
